@@ -517,7 +517,8 @@ def b_world(init, history, issuer, obs_ts, kind='vars'):
             spec['flow']['obs'] = [('op',)]
         else:
             spec['processes']['obs'] = {
-                'cls': 'P', 'pid': 'obs', 'ts': obs_ts,
+                'cls': 'P', 'pid': 'obs',
+                'ts': 1.5 if obs_ts == 'wait' else obs_ts,
                 'log_snapshot': True,
                 'schema': copy.deepcopy(OBS_SCHEMA), 'update': {}}
         spec['topology']['obs'] = dict(OBS_TOPO)
@@ -535,6 +536,11 @@ def b_world(init, history, issuer, obs_ts, kind='vars'):
     spec = st.initial_world(kind, {}, issuer, script, init=init,
                             extra=extra)
     spec['script'] = [('update', len(history) + 2)]
+    if obs_ts == 'wait':
+        # the observer's timestep (1.5) crosses the end of every call: it
+        # WAITS across non-forcing run_for calls while the operator
+        # changes the structure, and is then shown the current state
+        spec['script'] = [('run_for', 1, False)] * (len(history) + 3)
     return spec
 
 
@@ -670,8 +676,8 @@ def jobs(ctx):
                 init, 'vars', depth, with_pairs=True,
                 proc_issuer=(issuer == 'process'))
             for h in hists:
-                for obs_ts in (1, 2) + (('step',) if issuer == 'step'
-                                        else ()):
+                for obs_ts in (1, 2, 'wait') + (
+                        ('step',) if issuer == 'step' else ()):
                     out.append(('B', init_i, h, issuer, obs_ts))
         # compartments with their own process, flow steps and deriver,
         # all of them observed (paths are re-used by delete + generate)
@@ -715,3 +721,6 @@ def replay(case):
 
 RULE += (
     ' Also: an observer with a glob nested in a glob while children are added / deleted at the inner level; Engine(store=..., initial_state=...) whose initial state adds children to a glob-observed store.')
+
+RULE += (
+    ' Observer mode wait: timestep 1.5 under a script of non-forcing run_for(1) calls - the observer waits across the calls while the structure changes and is shown the current projection when it runs.')
